@@ -602,6 +602,14 @@ func (c *handlerCtx) bindReply(header Header) interface{} {
 
 	// unlock: handleReply
 	c.callCmd.mu.Lock()
+	if c.callCmd.hasReply() || c.callCmd.isDone() {
+		// a repeated reply, or a reply to a call that has failed or been canceled meanwhile
+		// (it was loaded from the map just before being deleted): there is no such call any more.
+		c.callCmd.mu.Unlock()
+		c.callCmd = nil
+		Warnf("not found call cmd: %v", c.input)
+		return nil
+	}
 	verifGate("bind.locked", c.sess)
 	c.input.SetServiceMethod(c.callCmd.output.ServiceMethod())
 	c.swap = c.callCmd.swap
@@ -891,4 +899,15 @@ func (c *callCmd) cancel(reason string) {
 // if callCmd.inputMeta!=nil, means the callCmd is replyed.
 func (c *callCmd) hasReply() bool {
 	return c.inputMeta != nil
+}
+
+// isDone reports whether the callCmd is complete (done or cancel has been executed).
+// NOTE: the caller must hold c.mu.
+func (c *callCmd) isDone() bool {
+	select {
+	case <-c.doneChan:
+		return true
+	default:
+		return false
+	}
 }
